@@ -84,7 +84,7 @@ Fixpoint find_prop (ps : list property) (json : bytes) : option property :=
   | p :: r => if bytes_eqb (p_json p) json then Some p else find_prop r json
   end.
 
-(* EnumSchema.OptionByName: strings.TrimPrefix(name, prefix), first option with that short name *)
+(* EnumSchema.OptionByName *)
 Definition trim_prefix (p s : bytes) : bytes :=
   match strip_prefix p s with Some r => r | None => s end.
 
@@ -94,8 +94,13 @@ Fixpoint option_by_short (opts : list (bytes * Z)) (short : bytes) : option Z :=
   | (n, z) :: r => if bytes_eqb n short then Some z else option_by_short r short
   end.
 
+(* the short name as written takes precedence (a short name may itself begin
+   with the prefix), then the name with the prefix trimmed once *)
 Definition option_by_name (prefix : bytes) (opts : list (bytes * Z)) (name : bytes) : option Z :=
-  option_by_short opts (trim_prefix prefix name).
+  match option_by_short opts name with
+  | Some z => Some z
+  | None => option_by_short opts (trim_prefix prefix name)
+  end.
 
 Fixpoint option_by_number (opts : list (bytes * Z)) (num : Z) : option bytes :=
   match opts with
